@@ -304,14 +304,27 @@ def unit_factor(secs, grams, m3, kind, metric, increment):
     return per_ref * secs[increment]
 
 
-def classify_unit_violation(metric, increment, rel):
-    """the two recorded table inconsistencies are deviations of about 1.3e-4; anything gross (a skipped or
-    doubled conversion, a wrong table entry) keeps its own signature even on those units"""
-    if rel > 1e-3:
-        return f"C16:unit-invariance:gross:{metric}/{increment}"
+DRIFT_TIME = 7884 / 7885            # Lean: Units.si_drift / si_drift_all (31 536 000 / 31 540 000)
+DRIFT_MSCF = 353147 / 353100        # Lean: Units.mscf_drift   (35.3147 / (1000 * 0.03531))
+
+
+def classify_unit_violation(metric, increment, pairs):
+    """pairs = [(rate from the file in this unit, rate from the reference-unit file)].  The two recorded
+    table inconsistencies predict the ratio EXACTLY (proved in Lean); a deviation is filed under a known
+    signature only if every ratio equals that prediction within 1e-9 — anything else (a second small
+    error on the same unit, a typo in another entry, a skipped or doubled conversion) is its own
+    signature and therefore a VIOLATION."""
+    expected = 1.0
     if increment != "second":
-        return SIG_TIME
+        expected *= DRIFT_TIME
     if metric == "mscf":
+        expected *= DRIFT_MSCF
+    ratios = [a / b for a, b in pairs if b != 0]
+    exact = bool(ratios) and all(abs(r - expected) < 1e-9 for r in ratios) \
+        and all(a == 0 for a, b in pairs if b == 0)
+    if exact and increment != "second":
+        return SIG_TIME          # for mscf per non-second the predicted ratio is the product of both drifts
+    if exact and metric == "mscf":
         return SIG_MSCF
     return f"C16:unit-invariance:{metric}/{increment}"
 
@@ -372,7 +385,8 @@ def run_rate_sources(ctx, G, M, u, tmp):
                             bad_unit = (name, j, a, b)
                 if bad_unit is not None:
                     name, j, a, b = bad_unit
-                    ctx.violate(classify_unit_violation(metric, increment, rel_diff(a, b)),
+                    allpairs = [(x, y) for nm in ("smp", "dst") for x, y in zip(got[nm][0], ref[kind][nm][0])]
+                    ctx.violate(classify_unit_violation(metric, increment, allpairs),
                                 "the same physical rates written in another unit give different g/s rates",
                                 dict(inp, source=name, draw=j, rate=a, reference_rate=b, rel=rel_diff(a, b)))
                     ctx.count("unit-invariance:differs")
@@ -490,7 +504,7 @@ def run_generation(ctx, G, M, tmp):
                 if [(s, i) for (s, i, _, _) in a["ems"]] != [(s, i) for (s, i, _, _) in b["ems"]]:
                     ctx.violate("C16:scenario-differs-by-unit:dates", "emission dates change with the unit of the emissions file", inp)
                 elif any(rel_diff(x[3], y[3]) > SAME for x, y in zip(a["ems"], b["ems"])):
-                    ctx.violate(classify_unit_violation(metric, increment, max(rel_diff(x[3], y[3]) for x, y in zip(a["ems"], b["ems"]))),
+                    ctx.violate(classify_unit_violation(metric, increment, [(y[3], x[3]) for x, y in zip(a["ems"], b["ems"])]),
                                 "the same physical rates written in another unit give a different scenario (rates)",
                                 dict(inp, rates=[x[3] for x in a["ems"]][:4], rates_other_unit=[y[3] for y in b["ems"]][:4]))
                 if a["ems"]:
@@ -668,6 +682,111 @@ def run_histories(ctx, G, M, tmp):
     ctx.sample({"history": hists[2], "trace_last_step": res[-1]["trace"] if hists else None})
 
 
+# ------------------------------------------------------------------------------------------------
+# part G: table entries against independent definitions; out-of-range production rates; one whole run
+# ------------------------------------------------------------------------------------------------
+NONSI_TOL = Fraction(2, 10 ** 6)     # as in Lean: Units.non_si_entries_within_tolerance
+
+
+def nonsi_expectations():
+    ft3 = Fraction(3048, 10000) ** 3
+    return {
+        ("metric", "pound"): (Fraction(10 ** 6) / Fraction(45359237, 100000), NONSI_TOL),
+        ("metric", "cubic feet"): (1 / ft3, NONSI_TOL),
+        ("metric", "liter"): (Fraction(1000), Fraction(0)),
+        ("metric", "cubic meter"): (Fraction(1), Fraction(0)),
+        ("metric", "mscf"): (1 / (1000 * ft3), Fraction(2, 10 ** 4)),     # coarse bound; the fine one is F10d
+        ("increment", "week"): (Fraction(365, 7), NONSI_TOL),
+        ("increment", "month"): (Fraction(12), Fraction(0)),
+        ("increment", "year"): (Fraction(1), Fraction(0)),
+    }
+
+
+def check_nonsi_table(ctx, u):
+    t = u["tables"]
+    for (kind, name), (exact, tol) in nonsi_expectations().items():
+        tabs = [("in_metrics", t["in_metrics"]), ("out_metrics", t["out_metrics"])] if kind == "metric" \
+            else [("increments", t["increments"])]
+        for tname, tab in tabs:
+            ctx.evaluations += 1
+            v = tab.get(name)
+            v = v["per_unit"] if isinstance(v, dict) else v
+            if v is None or abs(v - exact) > tol * exact:
+                ctx.violate(f"C16:unit-table:{tname}.{name}",
+                            "table entry disagrees with the independent definition of the unit beyond the tabulated precision",
+                            {"kind": "table-entry", "table": tname, "name": name, "value": str(v),
+                             "independent_definition": float(exact), "tolerance": float(tol)})
+            ctx.nontrivial.add(("table-entry", tname, name))
+
+
+def run_bad_production_rates(ctx, G):
+    for p in [-0.5, -1e-9, 1.0 + 1e-9, 1.5, 2, float("nan")]:
+        for (dur, multi, pre_en, n) in [(3, False, True, 5), (0, True, True, 4), (4, True, False, 1), (30, False, True, 400)]:
+            ctx.evaluations += 1
+            kind, what = G.run_generate_outcome(dur, multi, pre_en, n, p, 1, {"r": RATES["r"]})
+            ctx.count(f"bad-production-rate:{kind}:{what if kind == 'raised' else 'n'}")
+            if kind == "returned":
+                ctx.violate("C16:production-rate-out-of-range:accepted",
+                            "a production rate outside [0, 1] is silently accepted by the generator",
+                            {"kind": "bad-rate-case", "case": [dur, multi, pre_en, n, repr(p)], "emissions": what})
+            ctx.nontrivial.add(("bad-rate", repr(p), pre_en))
+
+
+def wholerun_oracle(ctx, G, cfg, seeds, n_saved, scen, start, ndays):
+    inp0 = {"kind": "wholerun-case", "cfg": cfg}
+    if n_saved != cfg["n_sims"] or len(seeds) < n_saved:
+        ctx.violate("C16:wholerun:folder-shape", "generator folder does not hold one seed and one scenario per simulation",
+                    dict(inp0, n_saved=n_saved, seeds=seeds))
+    for i, rows in scen.items():
+        for (path, reps, durs, ems) in rows:
+            ctx.evaluations += 1
+            if not ems:
+                continue
+            if len(reps) != 1:
+                ctx.violate("C16:wholerun:mixed-kinds", "one source holds repairable and non-repairable emissions", dict(inp0, source=path))
+                continue
+            par = cfg["rep"] if next(iter(reps)) else cfg["nonrep"]
+            if durs != {int(par["duration"])}:
+                ctx.note(f"whole run: source {path} has durations {sorted(durs)} != configured {par['duration']}; skipped")
+                continue
+            case = (int(par["duration"]), bool(par["multi"]), bool(cfg["pre_sim_emissions"]), ndays, par["epr"], None, True, True)
+            out = {"pre": [], "sim": [], "ems": ems}
+            before = len(ctx.violations)
+            gen_oracle(ctx, case, out, 100000.0, list(cfg["rates"]))
+            for v in ctx.violations[before:]:
+                v["input"] = dict(inp0, simulation=i, source=list(path), emissions=[[s, ids, r] for (s, _, ids, r) in ems])
+            ctx.nontrivial.add(("wholerun", case[1], case[2], any(s < 0 for (s, _, _, _) in ems), min(len(ems), 4)))
+    fps = [tuple((p, tuple(e)) for (p, _, _, e) in rows) for _, rows in sorted(scen.items())]
+    for a in range(len(fps)):
+        for b in range(a + 1, len(fps)):
+            if fps[a] == fps[b] and any(e for (_, _, _, e) in scen[a]):
+                sig = SIG_SAME if seeds[a] == seeds[b] else "C16:replicates:wholerun:identical-scenarios-different-seeds"
+                ctx.violate(sig, "two simulation numbers of a whole run hold the identical scenario",
+                            dict(inp0, simulations=[a, b], seeds=seeds))
+    if len(set(seeds[:n_saved])) < n_saved:
+        ctx.violate(SIG_SEED, "two simulation numbers receive the same emission seed", dict(inp0, seeds=seeds))
+
+
+def run_wholerun(ctx, G, tmp, cfg=None):
+    from datetime import date as _date
+    from harness import wholerun as W
+    for k in range(1 if cfg is not None else ctx.pick(1, 3)):
+        c = cfg if cfg is not None else W.make_config(ctx.rng, n_sims=ctx.rng.choice([2, 3]), ndays=120, n_sites=4)
+        root = os.path.join(tmp, f"whole_{k}")
+        os.makedirs(root)
+        res = W.run_config(c, trace=False, workdir=root, repo=os.environ.get("LDAR_REPO"))
+        gdir = os.path.join(root, "inputs", "generator")
+        if res.rc != 0 or not os.path.isdir(gdir):
+            ctx.note(f"whole run {k} did not complete (rc {res.rc}); generator folder read-back skipped: {res.log[-200:]}")
+            ctx.count("wholerun:not-completed")
+            continue
+        start = _date(*c["start"])
+        seeds, n_saved, scen = G.read_generator_folder(gdir, start)
+        wholerun_oracle(ctx, G, c, seeds, n_saved, scen, start, res.ndays)
+        ctx.count("wholerun:read-back")
+        ctx.traces += 1
+
+
 UNITDEFS = None
 SEEDINFO = None
 RATES = None
@@ -733,6 +852,9 @@ def run(ctx):
         run_generation(ctx, G, M, tmp)
         run_seeds(ctx, G, M, tmp)
         run_histories(ctx, G, M, tmp)
+        check_nonsi_table(ctx, u)
+        run_bad_production_rates(ctx, G)
+        run_wholerun(ctx, G, tmp)
     finally:
         shutil.rmtree(tmp, ignore_errors=True)
     ctx.assumptions.append("float results of the rate-source classes compared with the exact model inside a relative "
@@ -782,7 +904,9 @@ def replay(ctx, data):
                 print(name, "reference", res["ref"][name][0][:4], "| written in", metric, "/", increment, res["unit"][name][0][:4])
                 worst = max(rel_diff(a, b) for a, b in zip(res["unit"][name][0], res["ref"][name][0]))
                 if worst > SAME:
-                    ctx.violate(classify_unit_violation(metric, increment, worst), "different g/s rates", inp)
+                    ctx.violate(classify_unit_violation(metric, increment,
+                                                        list(zip(res["unit"][name][0], res["ref"][name][0]))),
+                                "different g/s rates", inp)
         elif kind == "scenario-unit-case":
             secs, grams, m3 = UNITDEFS
             c = inp["case"]
@@ -798,7 +922,7 @@ def replay(ctx, data):
                 ctx.violate("C16:scenario-differs-by-unit:dates", "dates differ", inp)
             elif any(rel_diff(x[3], y[3]) > SAME for x, y in zip(a["ems"], b["ems"])):
                 ctx.violate(classify_unit_violation(inp["metric"], inp["increment"],
-                                                    max(rel_diff(x[3], y[3]) for x, y in zip(a["ems"], b["ems"]))),
+                                                    [(y[3], x[3]) for x, y in zip(a["ems"], b["ems"])]),
                             "rates differ", inp)
         elif kind == "seed-case":
             M = Model(ctx)
@@ -813,6 +937,14 @@ def replay(ctx, data):
                 print("run n=%d %s: seed file %s, (simulation, seed applied) %s" % (
                     st["n"], "fresh" if st["fresh"] else "non-fresh", st["seed_file"], st["trace"]))
             history_oracle(ctx, M, steps, inp["np_seed"], res)
+        elif kind == "table-entry":
+            check_nonsi_table(ctx, u)
+        elif kind == "bad-rate-case":
+            run_bad_production_rates(ctx, G)
+        elif kind == "wholerun-case":
+            # the seeds of a whole run come from the unseeded global generator: the configuration is re-run,
+            # the scenario may differ from the recorded one
+            run_wholerun(ctx, G, tmp, cfg=inp["cfg"])
         elif kind == "scenario-case":
             seeds = inp.get("seeds")
             if seeds is None:
